@@ -2363,6 +2363,7 @@ impl Typer {
                 }
             }
             common_defs::UnaryOp::Neg => {
+                self.push_arithmetic_operand("-", false, expr_ty.clone());
                 self.push_constraint(Constraint::TypeEqual(expr_ty.clone(), expr_ty.clone()));
                 tast::Expr::EUnary {
                     op,
@@ -2402,12 +2403,19 @@ impl Typer {
 
         match op {
             common_defs::BinaryOp::Add => {
+                self.push_arithmetic_operand("+", true, ret_ty.clone());
                 self.push_constraint(Constraint::TypeEqual(lhs_ty.clone(), ret_ty.clone()));
                 self.push_constraint(Constraint::TypeEqual(rhs_ty.clone(), ret_ty.clone()));
             }
             common_defs::BinaryOp::Sub
             | common_defs::BinaryOp::Mul
             | common_defs::BinaryOp::Div => {
+                let symbol = match op {
+                    common_defs::BinaryOp::Sub => "-",
+                    common_defs::BinaryOp::Mul => "*",
+                    _ => "/",
+                };
+                self.push_arithmetic_operand(symbol, false, ret_ty.clone());
                 self.push_constraint(Constraint::TypeEqual(lhs_ty.clone(), ret_ty.clone()));
                 self.push_constraint(Constraint::TypeEqual(rhs_ty.clone(), ret_ty.clone()));
             }
